@@ -119,9 +119,16 @@ where
             //   "Messages carried by UDP are restricted to 512 bytes (not
             //    counting the IP or UDP headers).  Longer messages are
             //    truncated and the TC bit is set in the header."
-            let max_response_size = ctx
-                .max_response_size_hint()
-                .unwrap_or(MINIMUM_RESPONSE_BYTE_LEN);
+            //
+            // A transport supplied hint only applies to clients that have
+            // signalled EDNS support: without an OPT record in the request
+            // the client cannot be assumed to handle more than 512 bytes.
+            let max_response_size = if request.message().opt().is_none() {
+                MINIMUM_RESPONSE_BYTE_LEN
+            } else {
+                ctx.max_response_size_hint()
+                    .unwrap_or(MINIMUM_RESPONSE_BYTE_LEN)
+            };
             let max_response_size = max_response_size as usize;
             let response_len = response.as_slice().len();
 
